@@ -112,6 +112,49 @@ def chain(acc, name, order, ident, read_code, start, cfg):
                       'objects %r, expected %r' % (ids_g[:12], ids_w[:12]), cfg)
 
 
+def interleaved(acc, name, ident, rc_a, rc_b, abandon, cfg):
+    """two clients page through the identity at the same time (read codes rc_a and rc_b, both from object 0), their
+    requests alternating; with `abandon`, the first gives up after its first page.  Each chain must still get exactly
+    its own category."""
+    wit = dict(identity=name, order='asc', read_code=rc_b, start=0, other_chain=rc_a, abandon=abandon)
+    st = {}
+    for rc in (rc_a, rc_b):
+        want = mei.expected(ident, rc, 0)
+        if any(len(v) > mei.MAX_OBJECT_THAT_FITS for _, v in want):
+            return
+        st[rc] = dict(want=want, got=[], oid=0, done=False, pages=0)
+    order = [rc_a, rc_b]
+    turn = 0
+    while not all(c['done'] for c in st.values()):
+        rc = order[turn % 2]
+        turn += 1
+        c = st[rc]
+        if c['done']:
+            continue
+        acc.inc('transitions')
+        try:
+            out, dec = ask(rc, c['oid'])
+            m = bind.to_msg(dec)
+        except Exception as e:   # noqa
+            acc.violation('C20/%d/raise:%s/interleaved-chains' % (rc, type(e).__name__), wit, repr(e)[:100], cfg)
+            return
+        c['got'].extend(m['objects'])
+        c['pages'] += 1
+        if m['more'] != 0xFF or c['pages'] >= HORIZON or (abandon and rc == rc_a):
+            c['done'] = True
+        else:
+            c['oid'] = m['next_id']
+    acc.inc('chains', 2)
+    for rc, c in st.items():
+        if abandon and rc == rc_a:
+            continue
+        got = [(i, bytes(v)) for i, v in c['got']]
+        if got != c['want']:
+            acc.violation('C20/%d/%s/interleaved-chains' % (rc, 'missing' if set(i for i, _ in c['want']) - set(i for i, _ in got) else 'extra-or-order'),
+                          dict(wit, read_code=rc), 'chain with read code %d got objects %r, expected %r while another client paged with read code %d'
+                          % (rc, [i for i, _ in got][:12], [i for i, _ in c['want']][:12], rc_a if rc == rc_b else rc_b), cfg)
+
+
 def explore_identity(acc, name, items):
     ident = dict((i, v.encode()) for i, v in items)
     for order in ('asc', 'desc', 'reconf', 'update', 'props', 'bytes'):
@@ -159,6 +202,10 @@ def explore_identity(acc, name, items):
                 starts.update([3, 7, 0x7F, 0x80, 0xFE, 0xFF])
             for s in sorted(starts):
                 chain(acc, name, order, ident, rc, s, cfg)
+        if order == 'asc':
+            for rc_a, rc_b in ((3, 1), (1, 3), (3, 2), (2, 3), (2, 1)):
+                for abandon in (False, True):
+                    interleaved(acc, name, ident, rc_a, rc_b, abandon, cfg)
     acc.inc('evaluations')
 
 
